@@ -959,17 +959,62 @@ Proof.
     simpl. rewrite !app_length. simpl. rewrite !app_length. simpl. lia.
 Qed.
 
-Theorem roundtrip : forall t, wf t = true -> parse (pr t) = Ok [desugar t] [].
+Lemma expression_ok : forall t rest, wf t = true -> follow 0 t rest = true ->
+  forall d, length (pr t) <= d -> L d 0 (pr t ++ rest) = Ok (desugar t) rest.
+Proof.
+  intros t rest W F d Hd.
+  destruct (good_all (S (size t)) t ltac:(lia) W d) as [HP _].
+  - pose proof (depth_le_len _ t (Nat.lt_succ_diag_r _)). lia.
+  - apply (HP 0 ltac:(lia) rest F).
+Qed.
+
+Lemma statement_first : forall tok r, is_first tok = true ->
+  statement (tok :: r) = bind (expression (tok :: r)) (fun e rest => Ok (StExpr e) rest).
+Proof. intros tok r H. destruct tok; try discriminate; reflexivity. Qed.
+
+Theorem roundtrip : forall t, wf t = true -> parse (pr t) = Ok [StExpr (desugar t)] [].
 Proof.
   intros t W. destruct (pr_first t W) as (tok & r & E & Fi & _).
   unfold parse. rewrite E. rewrite skip_first by exact Fi.
   cbn [parse_loop].
   assert (Hs : starts_other_statement (tok :: r) = false) by (destruct tok; try discriminate; reflexivity).
-  rewrite Hs. unfold expression.
+  rewrite Hs. rewrite statement_first by exact Fi. unfold expression.
   change (expression_d (S (length (tok :: r)))) with (L (length (tok :: r)) 0).
-  rewrite <- E.
-  destruct (good_all (S (size t)) t ltac:(lia) W (length (pr t)) (depth_le_len _ t (Nat.lt_succ_diag_r _))) as [HP _].
-  specialize (HP 0 ltac:(lia) [] eq_refl). rewrite app_nil_r in HP. rewrite HP. reflexivity.
+  rewrite <- E. rewrite <- (app_nil_r (pr t)) at 2.
+  rewrite (expression_ok t [] W eq_refl); [reflexivity|lia].
+Qed.
+
+Theorem roundtrip_stmt : forall s, wf_stmt s = true -> parse (pr_stmt s) = Ok [desugar_stmt s] [].
+Proof.
+  intros [t|n t|k args] W; simpl in W.
+  - apply roundtrip. exact W.
+  - (* let *)
+    destruct (pr_first t W) as (tok & r & E & Fi & _).
+    unfold parse. cbn [pr_stmt skip_empty_lines parse_loop starts_other_statement statement parse_variable].
+    rewrite E. rewrite skip_first by exact Fi. unfold expression.
+    change (expression_d (S (length (tok :: r)))) with (L (length (tok :: r)) 0).
+    rewrite <- E. rewrite <- (app_nil_r (pr t)).
+    rewrite (expression_ok t [] W eq_refl); [reflexivity|rewrite app_length; simpl; lia].
+  - (* procedure call *)
+    apply andb_prop in W. destruct W as [Hk Wa].
+    unfold parse. cbn [pr_stmt skip_empty_lines parse_loop].
+    assert (Hs : starts_other_statement (TKw k :: TLParen :: pr_args args ++ [TRParen]) = false)
+      by (destruct k; try discriminate; reflexivity).
+    rewrite Hs.
+    assert (St : statement (TKw k :: TLParen :: pr_args args ++ [TRParen])
+                 = parse_procedure k (TLParen :: pr_args args ++ [TRParen]))
+      by (destruct k; try discriminate; reflexivity).
+    rewrite St. cbn [parse_procedure].
+    rewrite arguments_ok; [reflexivity|].
+    intros a Ha. assert (Waa : wf a = true) by (eapply forallb_forall in Wa; eauto).
+    split; [exact Waa|]. intros rest F.
+    apply expression_ok; auto.
+    (* the printed argument is shorter than the argument list *)
+    clear - Ha. rewrite app_length. simpl.
+    induction args as [|b r IH]; [contradiction|].
+    rewrite pr_args_cons, app_length. destruct Ha as [->|Ha]; [lia|].
+    specialize (IH Ha). destruct r as [|c r']; [contradiction|].
+    rewrite pr_args_cons in IH. cbn [tailp]. cbn [length]. rewrite !app_length in *. simpl in *. lia.
 Qed.
 
 Theorem parens_irrelevant : forall t t',
